@@ -240,7 +240,11 @@ func NewExec(cfg M) (*Exec, error) {
 		opts = append(opts, wire.TLSConfig(tc))
 		x.TLS, x.tlsSnap = tc, tc.Clone()
 	}
-	srv, err := wire.NewServer(x.parse, opts...)
+	var parse wire.ParseFn = x.parse
+	if S(cfg, "parser") == "nil" {
+		parse = nil // a server that was given no parse function
+	}
+	srv, err := wire.NewServer(parse, opts...)
 	if err != nil {
 		return nil, err
 	}
